@@ -1,4 +1,5 @@
 import Jwt.Lemmas.Policy
+import Jwt.Lemmas.Decisions
 /-!
 # C02 — algorithm pinning: a token cannot choose its own algorithm or key family (checker side)
 
@@ -94,5 +95,21 @@ example : configPost { key := some rsaPub, alg := .rs256 } .rs256 342 = none := 
 example : pinned { key := some rsaPub, alg := .none } = .rs256 := by decide
 -- the family rule is satisfiable and refutable
 example : strengthOk .rs256 rsaPub ∧ ¬ strengthOk .hs256 rsaPub := by simp [strengthOk, rsaPub]
+
+/-- **The admission table is the source's** (`__setkey_check` of `jwt-common.c`, translated on every run,
+once as compiled for builders and once for checkers): the model's `setkeyCheck` — which `C02_table_checker`,
+`C02_table_builder`, `C02_key_has_pin` speak about — admits a pair (alg, key) exactly when the translated
+function returns 0, whatever lies behind a NULL key pointer. -/
+theorem C02_table_is_source (side : Side) (alg : Alg) (key : Option KeyItem) (ka : Alg) (kp : Bool) :
+    setkeyCheck side alg key = none ↔ (setkeyCheckGen side alg key ka kp).1 = 0 :=
+  (setkeyCheck_generated side alg key ka kp).1
+
+/-- **The pinning gate is the source's** (`__verify_config_post` of `jwt-verify.c`, translated on every run):
+once the claims have passed, the model's `configPost` lets a token through exactly when the translated
+function returns 0 — for every configuration, header algorithm and signature length. -/
+theorem C02_gate_is_source (cfg : Config) (jalg : Alg) (n : Nat) (ka : Alg) :
+    configPost cfg jalg n = none ↔
+      (Generated.verifyConfigPost false cfg.key.isNone n cfg.alg (cfg.key.elim ka (·.alg)) jalg).1 = 0 :=
+  (configPost_generated cfg jalg n ka).1
 
 end Jwt.Props.C02
